@@ -37,6 +37,12 @@ func MsgClasses(m *Msg) (bool, []string) {
 		if depth >= 3 {
 			add("depth>=3")
 		}
+		if depth >= 9 {
+			add("depth>=9")
+		}
+		if depth >= 33 {
+			add("depth>=33")
+		}
 		if a.Flags&0x80 != 0 {
 			add("vendor-specific")
 			nt = true
